@@ -24,48 +24,7 @@ import Pumpkin.Model.Propagation
 
 namespace Pumpkin.Pg
 
-def ttTasks (ts : List Task) : List Task := ts.filter (fun k => decide (0 < k.dur) && decide (0 < k.use))
-
-def mandatoryAt (d : Doms) (k : Task) (t : Int) : Bool :=
-  decide (ub d k.start ≤ t) && decide (t < lb d k.start + k.dur)
-
-def heightAt (d : Doms) (ts : List Task) (t : Int) : Int :=
-  (ts.map (fun k => if mandatoryAt d k t then k.use else 0)).foldl (· + ·) 0
-
-def intRange (lo hi : Int) : List Int := (List.range (hi + 1 - lo).toNat).map (fun (i : Nat) => lo + Int.ofNat i)
-
-/-- every time point at which some task can run -/
-def ttTimes (d : Doms) (ts : List Task) : List Int :=
-  match ts with
-  | [] => []
-  | k :: r => intRange (r.foldl (fun m j => min m (lb d j.start)) (lb d k.start))
-      (r.foldl (fun m j => max m (ub d j.start + j.dur)) (ub d k.start + k.dur))
-
-/-- the rules of `find_possible_updates` for one task and one time point; the profile height is read
-off the current domains -/
-def ttTaskAt (holes : Bool) (cap : Int) (ts : List Task) (t : Int) (k : Task) (d : Doms) : Option Doms :=
-  if heightAt d ts t + k.use > cap ∧ mandatoryAt d k t = false ∧ lb d k.start ≤ t ∧ t < ub d k.start + k.dur then
-    (if lb d k.start + k.dur > t ∧ lb d k.start ≤ t then setLb d k.start (t + 1) else some d).bind fun d1 =>
-    (if ub d1 k.start + k.dur > t ∧ ub d1 k.start ≤ t then setUb d1 k.start (t - k.dur) else some d1).bind fun d2 =>
-    if holes then keep d2 k.start (fun z => !(decide (t - k.dur < z) && decide (z ≤ t))) else some d2
-  else some d
-
-def ttTasksAt (holes : Bool) (cap : Int) (ts : List Task) (t : Int) : List Task → Doms → Option Doms
-  | [], d => some d
-  | k :: r, d => (ttTaskAt holes cap ts t k d).bind (ttTasksAt holes cap ts t r)
-
-def ttPoints (holes : Bool) (cap : Int) (ts : List Task) : List Int → Doms → Option Doms
-  | [], d => some d
-  | t :: r, d =>
-    if heightAt d ts t > cap then none
-    else if heightAt d ts t > 0 then (ttTasksAt holes cap ts t ts d).bind (ttPoints holes cap ts r)
-    else ttPoints holes cap ts r d
-
-/-- one evaluation of the time-table: conflict check and filtering -/
-def ttPass (holes : Bool) (ts : List Task) (cap : Int) (d : Doms) : Option Doms :=
-  let ts' := ttTasks ts
-  if ts'.any (fun k => decide (k.use > cap)) then none
-  else ttPoints holes cap ts' (ttTimes d ts') d
+/-! (the definitions `ttTasks … ttPass` live in `Model/Propagation.lean`, in front of `PropInst`) -/
 
 /-- several cumulative constraints to the common fixpoint -/
 def ttRound : List (Bool × List Task × Int) → Doms → Option Doms
